@@ -12,13 +12,14 @@
  * process can fork, so the batch child (a pristine copy of the initialised driver that never runs LPC itself)
  * forks a grandchild per element.  The vx slot is shared memory, so vx_fail/vx_obs/vx_count of the grandchild land
  * in the batch child's record. */
-void vm_run_isolated (void (*fn) (long), long idx) {
+unsigned vm_elem_alarm_s = 20;
+int vm_run_isolated (void (*fn) (long), long idx) {
   fflush (0);
   pid_t pid = fork ();
-  if (pid < 0) { vx_fail ("VM-HARNESS:fork", "fork failed"); return; }
+  if (pid < 0) { vx_fail ("VM-HARNESS:fork", "fork failed"); return -1; }
   if (pid == 0) {
     prctl (PR_SET_PDEATHSIG, SIGKILL);
-    alarm (20);
+    alarm (vm_elem_alarm_s);
     fn (idx);
     fflush (0);
     syscall (SYS_exit_group, 0);
@@ -35,6 +36,7 @@ void vm_run_isolated (void (*fn) (long), long idx) {
     char key[80]; snprintf (key, sizeof key, "died:exit%d:element", WEXITSTATUS (st));
     vx_fail (key, "element %ld exited with status %d", idx, WEXITSTATUS (st));
   }
+  return st;
 }
 
 /* ------------------------------------------------------------------ failure records, de-duplicated across processes
